@@ -29,7 +29,8 @@ MIN_OBS = {'quick': {'evaluations': 12000, 'm4.comparisons': 15000, 'm4.as_file'
                         'm4.sources_with_2plus_accessors': 20000, 'c14.families_checked': 50000}}
 
 CTRL = ['\r', '\r\n', '\f', '\v', '\x1c', '\x1d', '\x1e', '\x85', ' ', ' ', '\t']
-PLAIN_TEXTS = ['', 'a', 'a\n', 'a\nb', 'a\nb\n', '\n', '\n\n', 'a\n\nb\n', ' a \n', 'ab\nab\nab\n', 'b\na\n']
+PLAIN_TEXTS = ['', 'a', 'a\n', 'a\nb', 'a\nb\n', '\n', '\n\n', 'a\n\nb\n', ' a \n', 'ab\nab\nab\n', 'b\na\n',
+               'ab\n' * 40, 'line é %d\n' * 12 % tuple(range(12)), 'x' * 99 + '\n' + 'y\n', 'a' * 101]
 WRAPS = [[], ['identity'], ['filter constant true'], ['char-case -to-lower', 'replace z z'], ['identity', 'identity'],
          ['strip -trailing-space', 'identity']]
 AKINDS = ['file', 'stdout', 'prog']
@@ -175,6 +176,27 @@ def build(case, d):
     hd = _heredoc(t)
     if hd is not None:
         add('equals-kinds', True, '( equals ' + hd + '\n )')
+    # --- family: equals against a DIFFERENT text (one more line; last line dropped), every kind of expected source
+    longer = t + ('' if (t.endswith('\n') or not t) else '\n') + 'extra\n'
+    files['longer.txt'] = longer.encode('utf-8')
+    lhex = longer.encode('utf-8').hex()
+    add('equals-neg', False, '( equals -contents-of -rel-act longer.txt )')
+    add('equals-neg', False, '( equals -contents-of -rel-act longer.txt -transformed-by identity )')
+    add('equals-neg', False, '( equals -stdout-from % ' + pr + ' - out=' + lhex + '\n )')
+    add('equals-neg', False, '( ( equals -contents-of -rel-act longer.txt ) || ( equals -contents-of -rel-act longer.txt ) )')
+    hd2 = _heredoc(longer)
+    if hd2 is not None:
+        add('equals-neg', False, '( equals ' + hd2 + '\n )')
+        add('equals-neg', False, '( constant false || equals ' + hd2 + '\n )')
+    if K >= 2:
+        shorter = ''.join(l + '\n' for l in lines[:-1])
+        files['shorter.txt'] = shorter.encode('utf-8')
+        add('equals-neg2', False, '( equals -contents-of -rel-act shorter.txt )')
+        add('equals-neg2', False, '( equals -contents-of -rel-act shorter.txt -transformed-by identity )')
+        add('equals-neg2', False, '( equals -stdout-from % ' + pr + ' - out=' + shorter.encode('utf-8').hex() + '\n )')
+        hd3 = _heredoc(shorter)
+        if hd3 is not None:
+            add('equals-neg2', False, '( equals ' + hd3 + '\n )')
     # --- family: whole-string consumer
     has_a = 'a' in t
     variants('matches', has_a, 'matches a', simple=False)
@@ -191,7 +213,7 @@ def build(case, d):
         add('perm', True, '( ' + ' && '.join(perm) + ' )')
     for perm in itertools.permutations([p_lines, p_ext, p_str]):
         add('perm-ext', True, '( ' + ' && '.join(perm) + ' )')
-    setup = ['copy t.txt', 'copy e.txt']
+    setup = ['copy t.txt', 'copy e.txt', 'copy longer.txt'] + (['copy shorter.txt'] if 'shorter.txt' in files else [])
     act = pr + ' - ' + (('out=' + hexs) if hexs else 'rc=0')
     return setup, act, fam, files
 
